@@ -3,7 +3,7 @@ TLC-generated refinement histories and project them onto plain data."""
 import numpy as np
 
 
-def make_kvs(cfg, integer_grid=False):
+def make_kvs(cfg, integer_grid=False, mult=1):
     """coarse knot vectors on [0,1], or (integer_grid) on [0, N*2^(MaxLev-1)] so that every breakpoint of every
     model level is an integer, exactly the domain of the exact references in HRepr/HAssemble"""
     from pyiga import bspline
@@ -11,7 +11,7 @@ def make_kvs(cfg, integer_grid=False):
     P = [cfg['P1'], cfg['P2']][:D]
     N = [cfg['N1'], cfg['N2']][:D]
     S = [float(N[a] * 2 ** (cfg['MaxLev'] - 1)) if integer_grid else 1.0 for a in range(D)]
-    return tuple(bspline.make_knots(P[a], 0.0, S[a], N[a]) for a in range(D))
+    return tuple(bspline.make_knots(P[a], 0.0, S[a], N[a], mult=min(mult, max(P[a], 1))) for a in range(D))
 
 
 def make_space(cfg, truncate=False, bdspecs=None, integer_grid=False):
